@@ -427,6 +427,10 @@ namespace occa {
                          value.bytes);
           break;
         }
+        case occa::c::typeType::bool_: {
+          arg.primitiveConstructor((bool) value.value.int8_);
+          break;
+        }
         case occa::c::typeType::int8_: {
           return occa::kernelArg(value.value.int8_);
         }
